@@ -797,10 +797,13 @@ impl<'a> Compiler<'a> {
 
                 self.compile_begin();
                 const CLOSURE_MASK: u64 = 0xEFEFEFEF;
-                // the card index alone repeats in every module: mix in the enclosing function
-                let function_handle = self.current_index.as_handle()
-                    + Handle::from_u64(CLOSURE_MASK)
-                    + self.current_function;
+                // the card index alone repeats in every module: hash it together with the
+                // program-wide handle of the enclosing function (combining the two with `+`
+                // cancelled the function out for root functions, whose index equals the handle)
+                let function_handle = Handle::from_u64(
+                    (u64::from(self.current_function.value()) << 32)
+                        | u64::from(self.current_index.as_handle().value()),
+                ) + Handle::from_u64(CLOSURE_MASK);
                 let arity = embedded_function.arguments.len() as u32;
                 let handle = u32::try_from(self.program.bytecode.len())
                     .expect("bytecode length to fit into 32 bits");
